@@ -126,7 +126,17 @@ func c09Check(c *mon.Case, csp *csvCase, t *csv.CsvTokenizer, ctx string) bool {
 	row := []string{}
 	field := ""
 	eols := 0
+	inField := 0
+	split := false
 	for _, t := range toks {
+		if t.Type == tokenizers.Eof || t.Type == tokenizers.Eol || (t.Type == tokenizers.Symbol && len([]rune(t.Value)) == 1 && strings.ContainsRune(cs.Cfg.Seps, []rune(t.Value)[0])) {
+			inField = 0
+		} else {
+			inField++
+			if inField > 1 {
+				split = true
+			}
+		}
 		switch {
 		case t.Type == tokenizers.Eof:
 		case t.Type == tokenizers.Eol:
@@ -161,6 +171,10 @@ func c09Check(c *mon.Case, csp *csvCase, t *csv.CsvTokenizer, ctx string) bool {
 			cls = " (non-ASCII text)"
 		}
 		c.Failf("CSV round trip does not recover the table"+cls+ctx, "separators=%q quotes=%q line end=%q\ntable %q\ntext  %q\ntokens %s\nrows  %q", cs.Cfg.Seps, cs.Cfg.Quotes, cs.Cfg.Eol, cs.Table, text, toksString(toks), rows)
+		return false
+	}
+	if split {
+		c.Failf("a single field is cut into several tokens"+ctx, "separators=%q quotes=%q text=%q tokens %s", cs.Cfg.Seps, cs.Cfg.Quotes, text, toksString(toks))
 		return false
 	}
 	if eols != len(cs.Table)-1 {
